@@ -1,18 +1,21 @@
 #!/usr/bin/env python3
 """usage: keep_seeded.py <prop> <k> <caught:yes|no> <check class/site or reason> -- copies a confirmed sub-agent break into /verif/seeded/<prop>-<k>/"""
 import sys, os, shutil, json, re
-prop, k, caught, how = sys.argv[1], sys.argv[2], sys.argv[3], sys.argv[4]
-src = "/tmp/wt/%s/BREAK/%s" % (prop, k)
-dst = "/verif/seeded/%s-%s" % (prop, k)
+wt, k, caught, how = sys.argv[1], sys.argv[2], sys.argv[3], sys.argv[4]
+prop = wt[:3]
+src = "/tmp/wt/%s/BREAK/%s" % (wt, k)
+idx = int(k) + (2 if wt.endswith("b") else 0) + (4 if wt.endswith("c") else 0)
+dst = "/verif/seeded/%s-%d" % (prop, idx)
+k = str(idx)
 os.makedirs(dst, exist_ok=True)
 for f in ("patch.diff", "demo.c", "run_demo.sh", "README.md"):
     if os.path.exists(os.path.join(src, f)):
         shutil.copy(os.path.join(src, f), os.path.join(dst, f))
 readme = open(os.path.join(src, "README.md")).read() if os.path.exists(os.path.join(src, "README.md")) else ""
-log = open("/tmp/wt/confirm_%s.log" % prop).read() if os.path.exists("/tmp/wt/confirm_%s.log" % prop) else ""
+log = open("/tmp/wt/confirm_%s.log" % wt).read() if os.path.exists("/tmp/wt/confirm_%s.log" % wt) else ""
 meta = {
     "property": prop,
-    "source": "independent sub-agent given only the property text and a scratch worktree (/tmp/wt/%s), nothing from /verif" % prop,
+    "source": "independent sub-agent given only the property text and a scratch worktree (/tmp/wt/%s), nothing from /verif" % wt + ("; round 2: additionally told which break ideas earlier agents had already used (not what /verif detects) and asked for history-dependent triggers" if wt.endswith("b") else ""),
     "needs_to_manifest": (re.search(r"(?is)(needs?|manifest)[^\n]*\n(.{0,900})", readme).group(0)[:900] if re.search(r"(?is)(needs?|manifest)", readme) else "see README.md"),
     "confirmed_by_me": {"demo_on_HEAD_exit": 0, "pinned_suite_with_patch": "317/317 passed", "demo_with_patch_exit": 1, "how": "tools/confirm_seeded.sh in the scratch worktree (apply, BUILD_AND_TEST.sh, run_demo.sh, revert)"},
     "check_result": {"caught": caught == "yes", "detail": how, "command": "tools/mutest.sh seeded/%s-%s/patch.diff %s (quick tier budget)" % (prop, k, prop)},
